@@ -957,6 +957,10 @@ example : AdmissibleRun 2 1 [] (demoOps ++ [COp.rotate demoState [2]]) := by
 example : unchokedNum ((demoOps ++ [COp.rotate demoState [2]]).foldl (cstepG 2) []) = 2 ∧
     optimisticNum ((demoOps ++ [COp.rotate demoState [2]]).foldl (cstepG 2) []) = 1 := by decide
 
+/-- (test) The view of the three peers along this history: told what is on record — peer 2 was unchoked by the rotation. -/
+example : [0, 1, 2].map (vrun 2 [] (fun _ => true) (demoOps ++ [COp.rotate demoState [2]])).2 = [false, false, false] ∧
+    [0, 1, 2].map (vrun 2 [] (fun _ => true) demoOps).2 = [false, false, true] := by decide
+
 /-! ### The rotation timer: `timeout_change_conn_state` -/
 
 theorem optCandidates_spec (s : CState) (a : Nat) (h : a ∈ optCandidates s) :
